@@ -201,6 +201,9 @@ pub struct BatchConfig<'a> {
 }
 
 pub struct BatchStats {
+    /// order-independent hash over every run's observations (equal for equal seeds whatever the
+    /// number of harness threads)
+    pub digest: u64,
     pub batch: String,
     pub world: String,
     pub runs: u64,
@@ -236,6 +239,7 @@ pub struct ReplayFile {
 }
 
 struct WorkerAcc {
+    digest: u64,
     evaluations: u64,
     steps: u64,
     counters: Counters,
@@ -263,6 +267,7 @@ pub fn run_batch<W: World>(world: &W, cfg: &BatchConfig) -> BatchStats {
         for _ in 0..threads {
             handles.push(s.spawn(|| {
                 let mut acc = WorkerAcc {
+                    digest: 0,
                     evaluations: 0,
                     steps: 0,
                     counters: Counters::new(),
@@ -295,6 +300,27 @@ pub fn run_batch<W: World>(world: &W, cfg: &BatchConfig) -> BatchStats {
                             std::process::exit(2);
                         }
                     };
+                    // order-independent digest of everything this run observed (determinism self-check)
+                    {
+                        let mut h = rng::Fp::new();
+                        h.u64(i);
+                        h.u64(out.evaluations);
+                        h.u64(out.steps);
+                        let mut fps = out.fingerprints.clone();
+                        fps.sort();
+                        for f in &fps {
+                            h.u64(*f);
+                        }
+                        for (k, v) in &out.counters {
+                            h.str(k);
+                            h.u64(*v);
+                        }
+                        if let Some((v, _)) = &out.violation {
+                            h.str(&v.class);
+                            h.str(&v.message);
+                        }
+                        acc.digest = acc.digest.wrapping_add(h.0);
+                    }
                     acc.evaluations += out.evaluations;
                     acc.steps += out.steps;
                     for (k, v) in &out.counters {
@@ -324,9 +350,11 @@ pub fn run_batch<W: World>(world: &W, cfg: &BatchConfig) -> BatchStats {
 
     let mut evaluations = 0;
     let mut steps = 0;
+    let mut digest = 0u64;
     let mut counters = Counters::new();
     let mut fps: HashSet<u64> = HashSet::new();
     for a in accs {
+        digest = digest.wrapping_add(a.digest);
         evaluations += a.evaluations;
         steps += a.steps;
         for (k, v) in a.counters {
@@ -344,6 +372,7 @@ pub fn run_batch<W: World>(world: &W, cfg: &BatchConfig) -> BatchStats {
         cfg.runs
     };
     BatchStats {
+        digest,
         batch: cfg.batch.to_string(),
         world: world.name().to_string(),
         runs: runs_done,
@@ -504,7 +533,7 @@ impl CheckReport {
             .map(|b| {
                 json!({
                     "batch": b.batch, "world": b.world, "runs": b.runs, "evaluations": b.evaluations,
-                    "distinct_nontrivial": b.distinct_nontrivial, "simulated_steps": b.steps,
+                    "distinct_nontrivial": b.distinct_nontrivial, "simulated_steps": b.steps, "run_digest": format!("{:016x}", b.digest),
                     "wall_s": b.wall_s, "counters": b.counters,
                     "violation": b.violation.as_ref().map(|v| json!({"class": v.violation.class, "message": v.violation.message, "replay": v.replay_path, "run_index": v.run_index, "replay_reproduced": v.reproduced})),
                 })
